@@ -93,6 +93,8 @@ def sh(cmd, timeout=None, cwd=None, env=None, inp=None):
     e.setdefault("CARGO_NET_OFFLINE", "true")
     if BUSY:
         e.setdefault("CARGO_BUILD_JOBS", "6")
+    if ALT:
+        e.setdefault("CARGO_INCREMENTAL", "0")   # the shared alt target dir must stay small
     if env:
         e.update(env)
     try:
@@ -368,6 +370,59 @@ def cstr(codepoints):
 
 # ------------------------------------------------------------------------------------ harness
 
+def repo_fingerprint():
+    """Identity of /repo's current working tree: HEAD, every tracked modification (content), every
+    untracked non-ignored file (path, size, mtime).  Two equal fingerprints = same sources."""
+    h = hashlib.sha256()
+    for cmd in (["git", "rev-parse", "HEAD"], ["git", "diff", "HEAD", "--binary"],
+                ["git", "ls-files", "--others", "--exclude-standard"]):
+        rc, o, e = sh(cmd, cwd=REPO, timeout=300)
+        if rc != 0:
+            return None
+        h.update(o.encode("utf8", "replace"))
+        if cmd[1] == "ls-files":
+            for f in o.splitlines():
+                try:
+                    st = os.stat(os.path.join(REPO, f))
+                    h.update(("%s %d %d" % (f, st.st_size, st.st_mtime_ns)).encode())
+                except OSError:
+                    pass
+    return h.hexdigest()
+
+
+def _dir_fingerprint(d):
+    h = hashlib.sha256()
+    for root, dirs, files in os.walk(d):
+        dirs[:] = sorted(x for x in dirs if x not in ("target", ".git"))
+        for f in sorted(files):
+            if f == "Cargo.lock":
+                continue
+            pth = os.path.join(root, f)
+            try:
+                h.update(pth.encode())
+                h.update(open(pth, "rb").read())
+            except OSError:
+                pass
+    return h.hexdigest()
+
+
+def _stamp_path(tag):
+    d = os.path.join(WORKALT if ALT else WORK, "stamps")
+    os.makedirs(d, exist_ok=True)
+    return os.path.join(d, re.sub(r"[^A-Za-z0-9_.-]+", "_", tag))
+
+
+def _fresh(tag, fp, paths):
+    """True when the last successful build of `tag` saw exactly these sources and its outputs exist."""
+    if fp is None or os.environ.get("VERIF_FORCE_BUILD"):
+        return False
+    sp = _stamp_path(tag)
+    try:
+        return open(sp).read() == fp and all(os.path.exists(p) for p in paths)
+    except OSError:
+        return False
+
+
 def _keep_binary(path, release):
     """alternative trees share one target dir: copy the fresh binary aside (caller holds the cargo lock)"""
     if not ALT or not os.path.exists(path):
@@ -412,6 +467,17 @@ def harness_build(pkg, release=False, features=None, timeout=3000, extra_cfg=Tru
     packages share one target dir (.work/target) so /repo crates are compiled once."""
     ensure_dirs()
     d = harness_dir(pkg)
+    rf = repo_fingerprint()
+    fp = None if rf is None else hashlib.sha256((rf + _dir_fingerprint(d) + str(release) + str(features) +
+                                                  str(extra_cfg)).encode()).hexdigest()
+    tag = "h-%s-%s-%s" % (pkg, "rel" if release else "dbg", bin_name or "")
+    outp = os.path.join(TARGET, "release" if release else "debug", bin_name or pkg)
+    if ALT:
+        outp = os.path.join(WORKALT, "bin", "release" if release else "debug", bin_name or pkg)
+    if _fresh(tag, fp, [outp]):
+        # nothing changed since the last successful build of this package from these very sources:
+        # skip cargo (and the long wait for the build-directory lock)
+        return True, outp, "up to date (sources unchanged since last successful build)"
     with FileLock("cargo"):
         lock_src = os.path.join(REPO, "Cargo.lock")
         lock_dst = os.path.join(d, "Cargo.lock")
@@ -431,6 +497,8 @@ def harness_build(pkg, release=False, features=None, timeout=3000, extra_cfg=Tru
             rc, o, e = sh(cmd, cwd=d, env=env, timeout=timeout)
         binp = os.path.join(TARGET, "release" if release else "debug", bin_name or pkg)
         binp = _keep_binary(binp, release) if rc == 0 else binp
+        if rc == 0 and fp is not None and repo_fingerprint() == rf:
+            open(_stamp_path(tag), "w").write(fp)
     return rc == 0, binp, o + e
 
 
@@ -438,6 +506,14 @@ def cli_build(release=False, timeout=3600, bins=("veryl",)):
     """Build the real `veryl` CLI (and optionally veryl-ls) from /repo's working tree with hooks on,
     into the shared target dir.  Returns (ok, {bin: path}, log)."""
     ensure_dirs()
+    rf = repo_fingerprint()
+    fp = None if rf is None else hashlib.sha256((rf + str(release) + ",".join(bins)).encode()).hexdigest()
+    tag = "cli-%s-%s" % ("rel" if release else "dbg", "+".join(sorted(bins)))
+    dd = os.path.join(WORKALT, "bin", "release" if release else "debug") if ALT else \
+        os.path.join(TARGET, "release" if release else "debug")
+    outs = {b: os.path.join(dd, b) for b in bins}
+    if _fresh(tag, fp, list(outs.values())):
+        return True, outs, "up to date (sources unchanged since last successful build)"
     with FileLock("cargo"):
         cmd = ["cargo", "build", "--offline"]
         for b in bins:
@@ -448,6 +524,8 @@ def cli_build(release=False, timeout=3600, bins=("veryl",)):
         rc, o, e = sh(cmd, cwd=REPO, env=env, timeout=timeout)
         d = os.path.join(TARGET, "release" if release else "debug")
         paths = {b: (_keep_binary(os.path.join(d, b), release) if rc == 0 else os.path.join(d, b)) for b in bins}
+        if rc == 0 and fp is not None and repo_fingerprint() == rf:
+            open(_stamp_path(tag), "w").write(fp)
     return rc == 0, paths, o + e
 
 
